@@ -76,10 +76,11 @@ def counting(o):
 
 INT_ONLY = {"map_affine", "cumsum", "deltas", "add_scalar", "add_scalar_l", "add_list", "multiply", "subtract",
             "negate", "group", "truthy", "map_nth", "map_alt", "uniq_mask", "interleave_l", "interleave_r",
-            "interleave_fin"}
+            "interleave_fin", "interleave_fin_r", "add_fin_l", "add_fin_r", "mul_fin_l", "mul_fin_r", "sub_fin_l", "sub_fin_r",
+            "union_fin_l", "filter_not_in"}
 ROWS_ONLY = {"vec_sum"}
 INT_OR_ROWS = {"uniquify", "union", "flatten1"}
-RELATIVE = {"filter_mod", "uniquify", "union", "truthy", "group", "flatten", "flatten1"}
+RELATIVE = {"filter_mod", "uniquify", "union", "truthy", "group", "flatten", "flatten1", "union_fin_l", "filter_not_in"}
 
 
 def applicable(stage, kind):
@@ -97,11 +98,11 @@ def kind_after(stage, kind):
     name = stage[0]
     if name in ("map_sum", "flatten", "flatten1", "vec_sum", "truthy", "uniq_mask"):
         return "int"
-    if name in ("zip_l", "zip_r", "prefixes", "windows", "chunks", "group"):
+    if name in ("zip_l", "zip_r", "zip_fin_l", "zip_fin_r", "prefixes", "windows", "chunks", "group"):
         return "rows" if kind == "int" else "deep"
     if name == "enumerate":
         return "deep"
-    if name in ("prepend", "append", "merge_fin", "insert_at"):
+    if name in ("prepend", "append", "append_list", "merge_fin", "insert_at"):
         return kind if kind == "int" else "deep"
     return kind
 
@@ -191,6 +192,32 @@ def apply_stage(stage, L, ctx):
         return E.insert_or_map_nth(L, p[0], lambda x, ctx=None: -x, ctx)
     if name == "map_alt":
         return E.wrap(L, lambda x, ctx=None: -x, ctx)
+    if name == "zip_fin_l":            # finite operand on the left, the source on the right
+        return E.vy_zip(list(p[0]), L, ctx)
+    if name == "zip_fin_r":
+        return E.vy_zip(L, list(p[0]), ctx)
+    if name == "add_fin_l":
+        return E.add(list(p[0]), L, ctx)
+    if name == "add_fin_r":
+        return E.add(L, list(p[0]), ctx)
+    if name == "mul_fin_l":
+        return E.multiply(list(p[0]), L, ctx)
+    if name == "mul_fin_r":
+        return E.multiply(L, list(p[0]), ctx)
+    if name == "sub_fin_l":
+        return E.subtract(list(p[0]), L, ctx)
+    if name == "sub_fin_r":
+        return E.subtract(L, list(p[0]), ctx)
+    if name == "interleave_fin_r":
+        return E.interleave(list(p[0]), L, ctx)
+    if name == "union_fin_l":
+        return E.union(list(p[0]), L, ctx)
+    if name == "filter_not_in":
+        return E.vy_filter(L, list(p[0]), ctx)
+    if name == "append_list":
+        return E.merge(L, list(p[0]), ctx)
+    if name == "pair_with":            # M without a function: a list comprehension over the operand (probe only)
+        return E.vy_map(p[0], L, ctx)
     if name == "cumsum_sans_last":     # ÞR: needs the end of the list (probe only)
         return E.cumul_sum_sans_last_prepend_zero(L, ctx)
     if name == "tail_remove":          # Ṫ: needs the end of the list (probe only)
@@ -225,6 +252,12 @@ def coq_stage(stage):
         "group": lambda: "SGroup", "insert_at": lambda: f"SInsertAt {p[0]} {z(p[1])}",
         "remove_at": lambda: f"SRemoveAt {p[0]}", "truthy": lambda: "STruthy",
         "map_nth": lambda: f"SMapNth {p[0]}", "map_alt": lambda: "SMapAlt",
+        "zip_fin_l": lambda: f"SZipFinL {zl(p[0])}", "zip_fin_r": lambda: f"SZipFinR {zl(p[0])}",
+        "add_fin_l": lambda: f"SAddFin {zl(p[0])}", "add_fin_r": lambda: f"SAddFin {zl(p[0])}",
+        "mul_fin_l": lambda: f"SMulFin {zl(p[0])}", "mul_fin_r": lambda: f"SMulFin {zl(p[0])}",
+        "sub_fin_l": lambda: f"SSubFinL {zl(p[0])}", "sub_fin_r": lambda: f"SSubFinR {zl(p[0])}",
+        "interleave_fin_r": lambda: f"SInterleaveFinR {zl(p[0])}", "union_fin_l": lambda: f"SUnionFinL {zl(p[0])}",
+        "filter_not_in": lambda: f"SFilterNotIn {zl(p[0])}", "append_list": lambda: "SAppend",
     }[name]()
 
 
@@ -309,6 +342,23 @@ def ref_stage(stage, l):
         return [-x if i % p[0] == 0 else x for i, x in enumerate(l)]
     if name == "map_alt":
         return [-x if i % 2 == 1 else x for i, x in enumerate(l)]
+    if name in ("zip_fin_l", "zip_fin_r", "add_fin_l", "add_fin_r", "mul_fin_l", "mul_fin_r", "sub_fin_l", "sub_fin_r"):
+        fin = list(p[0]) + [0] * max(0, n - len(p[0]))          # the finite operand, zero-filled
+        op = {"zip_fin_l": lambda f, x: [f, x], "zip_fin_r": lambda f, x: [x, f], "add_fin_l": lambda f, x: f + x,
+              "add_fin_r": lambda f, x: x + f, "mul_fin_l": lambda f, x: f * x, "mul_fin_r": lambda f, x: x * f,
+              "sub_fin_l": lambda f, x: f - x, "sub_fin_r": lambda f, x: x - f}[name]
+        return [op(f, x) for f, x in zip(fin, l)]
+    if name == "interleave_fin_r":
+        fin = list(p[0])
+        m = min(n, len(fin))
+        return [y for i in range(m) for y in (fin[i], l[i])] + (fin[n:n + 1] if n < len(fin) else l[m:])
+    if name == "union_fin_l":
+        both = list(p[0]) + l
+        return [x for i, x in enumerate(both) if x not in both[:i]]
+    if name == "filter_not_in":
+        return [x for x in l if x not in p[0]]
+    if name == "append_list":
+        return l
     raise KeyError(name)
 
 
@@ -417,14 +467,65 @@ def measure(item):
         L = apply_stage(s, L, ctx)
     if not isinstance(L, LazyList):
         return ("not-lazy", type(L).__name__)
+    from vyxal import elements as E, helpers as H
     if mode == "islice":
         out = list(itertools.islice(iter(L), n))
-    else:
+    elif mode == "index":
         if n:
             L[n - 1]
         out = [L[i] for i in range(n)]
+    elif mode == "slice":              # every other way of taking a prefix, and the boundary observations
+        out = L[:n]
+    elif mode == "slice1":
+        out = L[1:n]
+    elif mode == "slice_nn":
+        out = L[n:n]
+    elif mode == "elem_index":
+        out = E.index(L, [0, n], ctx)
+    elif mode == "zero_slice":
+        out = E.zero_slice(L, n, ctx)
+    elif mode == "one_slice":
+        out = E.one_slice(L, n, ctx)
+    elif mode == "has_ind0":
+        out = [int(bool(L.has_ind(0)))]
+    elif mode == "has_ind_neg":
+        out = [int(bool(H.has_ind(L, -1)))]
+    elif mode == "index0":
+        out = [E.index(L, 0, ctx)]
+    else:
+        raise KeyError(mode)
     pulls = src.pulls
     return (pulls, force(out))
+
+
+TAKE_MODES = ("slice", "slice1", "slice_nn", "elem_index", "zero_slice", "one_slice")
+BOUNDARY_MODES = ("has_ind0", "has_ind_neg", "index0")        # measured once per pipeline (n is ignored)
+MODE_TEXT = {"slice": "L[:n]", "slice1": "L[1:n]", "slice_nn": "L[n:n]", "elem_index": "index(L, [0, n])",
+             "zero_slice": "zero_slice(L, n)", "one_slice": "one_slice(L, n)", "has_ind0": "L.has_ind(0)",
+             "has_ind_neg": "has_ind(L, -1)", "index0": "index(L, 0)"}
+
+
+def take_expectation(mode, n, prim):
+    """What this way of taking a prefix must pull and return, in terms of the primary
+    measurements prim[n] = (pulls, outputs) of islice (which are tied to the model; for n = 0
+    theorem C14_zero: nothing pulled beyond the constructor).  None: not determined."""
+    def at(k):
+        return prim.get(k)
+    if mode in ("slice", "elem_index", "zero_slice"):
+        return at(n)
+    if mode in ("slice1", "one_slice"):
+        if n <= 1:
+            return at(0)                                   # empty range: as if nothing was asked
+        return (at(n)[0], at(n)[1][1:]) if at(n) else None
+    if mode == "slice_nn":
+        return at(0)
+    if mode == "has_ind0":
+        return (at(1)[0], [1]) if at(1) else None
+    if mode == "has_ind_neg":
+        return (at(0)[0], [0]) if at(0) else None
+    if mode == "index0":
+        return (at(1)[0], at(1)[1][:1]) if at(1) else None
+    raise KeyError(mode)
 
 
 # ----------------------------------------------------------------------------
@@ -446,6 +547,12 @@ def catalogue():
         ("add_scalar", 7), ("add_scalar_l", 7), ("multiply", 2), ("subtract", 5), ("negate",), ("add_list", 100),
         ("group",), ("insert_at", 0, 55), ("insert_at", 2, 55), ("remove_at", 0), ("remove_at", 2),
         ("truthy",), ("map_nth", 2), ("map_alt",),
+        # a finite operand with the infinite source, in both arrangements (n runs over both sides of its length)
+        ("zip_fin_l", (10, 20, 30)), ("zip_fin_r", (10, 20, 30)), ("zip_fin_l", (10,)), ("zip_fin_r", (10,)),
+        ("add_fin_l", (10, 20, 30)), ("add_fin_r", (10, 20, 30)), ("mul_fin_l", (2, 3)), ("mul_fin_r", (2, 3)),
+        ("sub_fin_l", (10, 20, 30)), ("sub_fin_r", (10, 20, 30)),
+        ("interleave_fin_r", (70, 71, 72)), ("interleave_fin_r", (70,)),
+        ("union_fin_l", (1, 2, 3)), ("filter_not_in", (1, 2, 3)), ("append_list", (70, 71)),
     ]
 
 
@@ -520,7 +627,8 @@ def fit(points):
 def probes_outside(env):
     """Calls that cannot be lazy by their parameters or by construction; recorded, not judged."""
     items = [((0,), 1, (("windows", 0),), 1, "islice"), ((0,), 1, (("chunks", 0),), 1, "islice"),
-             ((0,), 1, (("cumsum_sans_last",),), 1, "islice"), ((0,), 1, (("tail_remove",),), 1, "islice")]
+             ((0,), 1, (("cumsum_sans_last",),), 1, "islice"), ((0,), 1, (("tail_remove",),), 1, "islice"),
+             ((0,), 1, (("pair_with", 5),), 1, "islice")]
     res = V.pmap(measure, items, timeout=10.0)
     out = {}
     for it, (st, val) in zip(items, res):
@@ -561,6 +669,39 @@ def judge(env, entries, results, cases, formula, hung):
                 cases.append((t, c, pl, n, pulls, outs))
             if len(pl) == 1:
                 formula.setdefault(name, {}).setdefault(str(list(t)) + "+" + str(c), []).append((n, pulls))
+
+
+def judge_takes(env, items, results, prim, hung_modes):
+    n_checked = 0
+    fails = {}
+    for (t, c, pl, n, mode), (st, val) in zip(items, results):
+        want = take_expectation(mode, n, prim.get((t, c, pl), {}))
+        if want is None:
+            continue
+        n_checked += 1
+        name = pname(pl)
+        what = MODE_TEXT[mode].replace("n", str(n)) if mode in TAKE_MODES else MODE_TEXT[mode]
+        inp = {"source": {"table": list(t), "shift": c}, "pipeline": [list(map(_jsonable, s)) for s in pl], "n": n, "take": what}
+        bad = None
+        if st == "timeout" or (st == "exc" and str(val).startswith("Runaway")):
+            how = "does not terminate (watchdog)" if st == "timeout" else f"pulled more than {CAP} items of the source"
+            bad = f"{what} on L = {name} of an infinite list {how}; taking the same prefix by iteration pulls {want[0]}"
+            cls = f"nonterminating-take:{mode}:{name}"
+            fails[mode] = fails.get(mode, 0) + 1
+        elif st == "exc":
+            bad, cls = f"{what} on L = {name} raises {val}", f"raises-take:{mode}:{name}"
+        elif val[0] == "not-lazy":
+            continue
+        elif val[0] != want[0]:
+            bad, cls = f"{what} on L = {name} pulled {val[0]} items of the source, iteration pulls {want[0]}", f"pulls-take:{mode}:{name}"
+        elif val[1] != want[1]:
+            bad, cls = f"{what} on L = {name} gives {str(val[1])[:160]}, expected {str(want[1])[:160]}", f"outputs-take:{mode}:{name}"
+        if bad:
+            env.fail(inp, bad, cls=cls)
+    for mode, k in fails.items():
+        if k >= 8:                       # a way of taking that hangs across the catalogue is not waited for again
+            hung_modes.add(mode)
+    return n_checked
 
 
 def run_all(env, with_model=True):
@@ -607,7 +748,28 @@ def run_all(env, with_model=True):
         res = V.pmap(measure, items, timeout=env.budget(6.0, 12.0))
         judge(env, entries, res, cases, formula, hung)
         measured += items
-    env.count(len(measured), (f"{t}+{c}:{pname(pl)}:{n}" for (t, c, pl, n, _m) in measured if n >= 1))
+    # every other way of taking a prefix (bounded slices, the slicing elements) for n on both sides of
+    # the boundaries, and has_ind / index with boundary arguments: same pulls and items as iteration
+    prim = {}
+    for (t, c, pl, n, pulls, outs) in cases:
+        prim.setdefault((t, c, pl), {})[n] = (pulls, outs)
+    combos = sorted(prim, key=lambda k: (len(k[2]), pname(k[2]), k[0], k[1]))
+    combos = [k for k in combos if not any(sname(s) in hung for s in k[2])]
+    first = [k for k in combos if len(k[2]) == 1 and k[0] == sources[0][0]]
+    rest = [k for k in combos if k not in set(first)]
+    take_ns = (0, 1, 2, 5)
+    hung_modes, takes_checked, takes = set(), 0, []
+    for group in (first, rest):
+        items = [(t, c, pl, n, mode) for n in take_ns for mode in TAKE_MODES if mode not in hung_modes for (t, c, pl) in group]
+        items += [(t, c, pl, 0, mode) for mode in BOUNDARY_MODES if mode not in hung_modes for (t, c, pl) in group]
+        res = V.pmap(measure, items, timeout=env.budget(6.0, 12.0))
+        takes_checked += judge_takes(env, items, res, prim, hung_modes)
+        takes += items
+    env.note("prefix_taking", {"ways": [MODE_TEXT[m] for m in TAKE_MODES + BOUNDARY_MODES], "n": list(take_ns),
+                               "checked_against_iteration": takes_checked,
+                               "ways_that_hung_and_were_not_repeated": sorted(hung_modes)})
+    measured += takes
+    env.count(len(measured), (f"{t}+{c}:{pname(pl)}:{n}:{m}" for (t, c, pl, n, m) in measured if n >= 1 or m not in ("islice", "index")))
     env.note("n_max", N)
     env.note("pipelines", {"single": len(cat), "compositions": len(pipelines) - len(cat),
                            "of_length_2": sum(1 for p in pipelines if len(p) == 2), "of_length_3": sum(1 for p in pipelines if len(p) == 3)})
@@ -665,14 +827,18 @@ def model_answer(env, case):
 
 
 RULE = ("instrumented infinite source (generator counting its resumptions, wrapped in LazyList(..., isinf=True)) pushed through the real "
-        "element functions; every catalogued transformation (52 parametrised stages: map, filter, zip left/right, interleave with an "
-        "infinite/finite list, prefixes, cumulative sums, deltas, windows k=1,2,3,5, chunks k=1,2,3, deep/shallow flatten, uniquify, union, "
-        "uniquify mask, enumerate, prepend, append, merge with a finite list, slice from 0/1/4, every n-th, uninterleave, head remove, "
-        "vectorised + - * negate with a scalar and with an infinite list, vectorised sum, group consecutive, insert/remove at, truthy indices, "
-        "map every n-th / every second) on 3 sources, and random type-correct compositions of 2 and 3 stages on one source each, for ALL "
-        "n <= 12 (quick) / 40 (thorough), taken both by iteration and by indexing.  Each measurement (pulls, first n outputs) is compared "
-        "with run_until of the pull-machine model inside Coq (exact equality), and judged by the oracle: terminates, pulls <= bound of the "
-        "theorems (composed stage by stage), outputs equal the reference transformation.  Non-trivial = n >= 1; distinct by (source, pipeline, n).")
+        "element functions; every catalogued transformation (67 parametrised stages: map, filter by predicate / by membership, zip and the dyadic "
+        "vectorised + - * in every operand arrangement (source with an infinite list, source with a finite list on the left and on the right, "
+        "zero fill after the finite operand ends), interleave with an infinite/finite list on either side, union on either side, prefixes, "
+        "cumulative sums, deltas, windows k=1,2,3,5, chunks k=1,2,3, deep/shallow flatten, uniquify, uniquify mask, enumerate, prepend, append, "
+        "merge with a finite list on either side, slice from 0/1/4, every n-th, uninterleave, head remove, vectorised sum, group consecutive, "
+        "insert/remove at, truthy indices, map every n-th / every second) on 3 sources, and random type-correct compositions of 2 and 3 stages "
+        "on one source each, for ALL n from 0 to 12 (quick) / 40 (thorough), taken by iteration and by indexing; for n in 0,1,2,5 also by "
+        "L[:n], L[1:n], L[n:n], index(L,[0,n]), zero_slice, one_slice, and has_ind(0), has_ind(-1), index(L,0), which must pull and return "
+        "exactly what iteration does (n = 0 and empty ranges: nothing beyond the constructor, theorem C14_zero).  Each primary measurement "
+        "(pulls, first n outputs) is compared with run_until of the pull-machine model inside Coq (exact equality), and judged by the oracle: "
+        "terminates, pulls <= bound of the theorems (composed stage by stage), outputs equal the reference transformation.  "
+        "Non-trivial = n >= 1 or a slicing/boundary way of taking; distinct by (source, pipeline, n, way).")
 
 
 def run(env):
